@@ -51,6 +51,8 @@ def run(chk):
     r1_write_sets(chk, repo)
     r2_hit_fields(chk, repo)
     r3_metadata_copy(chk, repo)
+    r4_slices(chk, repo)
+    r5_record_links(chk, repo)
 
 
 def record_vars(f):
@@ -244,8 +246,118 @@ def r3_metadata_copy(chk, repo):
     rl = [n for n in walk_body(f.node) if isinstance(n, ast.Assign) and NR and norm(n.targets[0]) == f"{NR}['reduction_level']"]
     chk.check(len(rl) == 1 and norm(rl[0].value).endswith("HITS_ONLY"), "C18.R3", f, None, "reduction level of reduced records is not HITS_ONLY", site_text="cut_outside_hits: reduction_level = HITS_ONLY")
 
+# ------------------------------------------------------------------------------------ R4
+def r4_slices(chk, repo):
+    chk.describe("C18.R4", "samples kept in the neighbouring fragment are addressed with slices whose open end is on the right side of zero: `[k:]` only under k < 0 (k == 0 would keep the whole fragment), `[:k]` only for k = a - b under a > b")
+    R = "C18.R4"
+    f = repo.func("_cut_outside_hits", RED)
+    cfg = cfg_of(f)
+    defs = Defs(f.node)
+    n = 0
+    for st in walk_body(f.node):
+        if not (isinstance(st, ast.Assign) and isinstance(st.targets[0], ast.Subscript) and isinstance(st.targets[0].slice, ast.Slice)):
+            continue
+        sl = st.targets[0].slice
+        node = cfg.node_of(st)
+        facts = cfg.guard_facts(node)
+        if sl.lower is not None and sl.upper is None:
+            n += 1
+            k = sl.lower
+            names = [norm(k)]
+            if isinstance(k, ast.Name) and defs.single(k.id) is not None and isinstance(defs.single(k.id), ast.Name):
+                names.append(norm(defs.single(k.id)))
+            ok = any((f"{nm} < 0", True) in facts for nm in names)
+            chk.check(ok, R, f, st, f"`{head(st, 70)}` keeps the samples from index {norm(k)} on, but nothing guarantees {norm(k)} < 0 here: for 0 the whole neighbouring fragment survives the reduction",
+                      site_text="_cut_outside_hits: [k:] only under k < 0", site={"function": f.qualname, "slice": "open right"})
+            # both sides use the same slice
+            chk.check(isinstance(st.value, ast.Subscript) and norm(st.value.slice) == norm(sl), R, f, st, "source and destination samples are not the same slice", site_text="_cut_outside_hits: same slice copied (previous fragment)")
+        elif sl.lower is None and sl.upper is not None:
+            n += 1
+            k = sl.upper
+            v = defs.single(k.id) if isinstance(k, ast.Name) else k
+            ok = False
+            if isinstance(v, ast.BinOp) and isinstance(v.op, ast.Sub):
+                a, b = norm(v.left), norm(v.right)
+                ok = (f"{a} > {b}", True) in facts or (f"{a} >= {b}", True) in facts
+            chk.check(ok, R, f, st, f"`{head(st, 70)}`: the number of samples kept at the start of the next fragment can be negative (a negative stop keeps almost the whole fragment)",
+                      site_text="_cut_outside_hits: [:a - b] only under a > b", site={"function": f.qualname, "slice": "open left"})
+            chk.check(isinstance(st.value, ast.Subscript) and norm(st.value.slice) == norm(sl), R, f, st, "source and destination samples are not the same slice", site_text="_cut_outside_hits: same slice copied (next fragment)")
+    chk.floor(R, "open-ended sample slices in _cut_outside_hits", n, 2)
+
+
+# ------------------------------------------------------------------------------------ R5
+def r5_record_links(chk, repo):
+    chk.describe("C18.R5", "record_links links a record to the previous record of its channel only if it is not the first fragment of a pulse and starts exactly where that record ended; the per-channel bookkeeping is updated for every record")
+    R = "C18.R5"
+    f = repo.func("record_links", PULSE)
+    cfg = cfg_of(f)
+    loops = [n for n in walk_body(f.node) if isinstance(n, ast.For) and call_name(n.iter) == "enumerate"]
+    chk.need(len(loops) == 1 and isinstance(loops[0].target, ast.Tuple), "C18.R5: record loop of record_links not found")
+    lp = loops[0]
+    I, REC = norm(lp.target.elts[0]), norm(lp.target.elts[1])
+    rets = [st for st in walk_body(f.node) if isinstance(st, ast.Return) and isinstance(st.value, ast.Tuple) and len(st.value.elts) == 2 and all(isinstance(e, ast.Name) for e in st.value.elts)]
+    chk.need(bool(rets), "C18.R5: record_links no longer returns (previous, next)")
+    PREV, NEXT = [norm(e) for e in rets[-1].value.elts]
+    links = [st for st in walk_body(lp) if isinstance(st, ast.Assign) and isinstance(st.targets[0], ast.Subscript) and norm(st.targets[0].value) in (PREV, NEXT) and "NO_RECORD_LINK" not in norm(st.value)]
+    chk.check(len(links) == 2, R, f, lp, f"expected one store into each of the two link arrays, found {len(links)}", site_text="record_links: previous[i] = last, next[last] = i")
+    for st in links:
+        facts = cfg.guard_facts(cfg.node_of(st))
+        first = (f"{REC}['record_i'] == 0", False) in facts
+        adjacent = False
+        for e, pol, g in cfg.guard_literals(cfg.node_of(st)):
+            if pol is True and isinstance(e, ast.Compare) and len(e.ops) == 1 and isinstance(e.ops[0], ast.Eq):
+                sides = [norm(e.left), norm(e.comparators[0])]
+                other = [x for x in (e.left, e.comparators[0]) if norm(x) != f"{REC}['time']"]
+                if f"{REC}['time']" in sides and len(other) == 1 and isinstance(other[0], ast.Subscript):
+                    adjacent = True
+        chk.check(first, R, f, st, "a first fragment (record_i == 0) can be linked to the previous record of its channel: a new pulse that starts exactly one record length after another pulse is glued to it", site_text=f"record_links: `{head(st, 40)}` only for record_i != 0", site={"function": f.qualname, "link": norm(st.targets[0].value), "guard": "not first fragment"})
+        chk.check(adjacent, R, f, st, "fragments are linked although the record does not start where the previous one ended", site_text=f"record_links: `{head(st, 40)}` only if time == expected next start", site={"function": f.qualname, "link": norm(st.targets[0].value), "guard": "adjacent"})
+    if len(links) == 2:
+        a, b = links
+        LAST = norm(a.value) if norm(a.targets[0].value) == PREV else norm(b.value)
+        okd = norm(a.targets[0].value) != norm(b.targets[0].value)
+        for st in links:
+            if norm(st.targets[0].value) == PREV:
+                okd = okd and norm(st.targets[0].slice) == I and norm(st.value) == LAST
+            else:
+                okd = okd and norm(st.targets[0].slice) == LAST and norm(st.value) == I
+        chk.check(okd, R, f, a, "the two link arrays are not filled symmetrically (previous[i] = last and next[last] = i)", site_text="record_links: symmetric links")
+        lastdef = [st for st in walk_body(lp) if isinstance(st, ast.Assign) and norm(st.targets[0]) == LAST]
+        SEEN = norm(lastdef[0].value.value) if lastdef and isinstance(lastdef[0].value, ast.Subscript) else None
+        CH = norm(lastdef[0].value.slice) if SEEN else None
+        chk.check(SEEN is not None, R, f, None, "the previous record of the channel is not looked up per channel", site_text="record_links: last = last_record_seen[channel]")
+        if SEEN:
+            ups = [st for st in walk_body(lp) if isinstance(st, ast.Assign) and isinstance(st.targets[0], ast.Subscript) and norm(st.targets[0].slice) == CH]
+            u1 = [st for st in ups if norm(st.targets[0].value) == SEEN and norm(st.value) == I]
+            u2 = [st for st in ups if norm(st.targets[0].value) != SEEN and f"{REC}['time']" in norm(st.value) and f"{REC}['dt']" in norm(st.value)]
+            ln = cfg.node_of(lp)
+            first_nodes = cfg.nodes_of(lp.body[0])
+            inside = {id(x) for st_ in lp.body for x in ast.walk(st_)}
+            in_loop = lambda n: id(n.stmt if n.kind == "stmt" else n.owner) in inside
+
+            def every_round(stmts):
+                nodes = [cfg.node_of(x) for x in stmts]
+                return bool(nodes) and (any(b in nodes for b in first_nodes) or cfg.every_path(first_nodes, [ln], lambda n: n in nodes or (n is not ln and not in_loop(n)), "n")[0])
+
+            chk.check(every_round(u1) and every_round(u2), R, f, lp, "last record / expected next start of the channel are not updated for every record (some path through the loop body skips them)", site_text="record_links: per-channel bookkeeping updated for every record")
+            for u in u2:
+                v = u.value
+                okv = isinstance(v, ast.BinOp) and isinstance(v.op, ast.Add) and any(norm(x) == f"{REC}['time']" for x in (v.left, v.right)) and any(isinstance(x, ast.BinOp) and isinstance(x.op, ast.Mult) and f"{REC}['dt']" in (norm(x.left), norm(x.right)) for x in (v.left, v.right))
+                chk.check(okv, R, f, u, "the expected start of the next fragment is not time + samples_per_record * dt", site_text="record_links: expected next start = time + n_samples * dt")
+
 
 WITNESSES = [
+    W("whole previous fragment kept when the extension ends on the boundary", "C18.R4", RED,
+      "if start_keep < 0:\n            prev_ri", "if start_keep <= 0:\n            prev_ri"),
+    W("next-fragment guard dropped", "C18.R4", RED,
+      "if end_keep > samples_per_record:\n            next_ri", "if True:\n            next_ri"),
+    W("first fragments linked like continuing ones", "C18.R5", PULSE,
+      "if r[\"record_i\"] == 0:\n            # Record starts a new pulse\n            previous_record[i] = NO_RECORD_LINK\n\n        elif r[\"time\"] == expected_next_start[ch]:",
+      "if r[\"time\"] == expected_next_start[ch]:"),
+    W("fragments linked without the adjacency test", "C18.R5", PULSE,
+      "elif r[\"time\"] == expected_next_start[ch]:", "else:"),
+    W("bookkeeping only for continuing records", "C18.R5", PULSE,
+      "next_record[last_i] = i\n", "next_record[last_i] = i\n            expected_next_start[ch] = r[\"time\"] + samples_per_record * r[\"dt\"]\n            continue\n"),
     W("reduction alters the baseline field", "C18.R1", RED,
       "new_recs[rec_i][\"data\"][a:b] = records[rec_i][\"data\"][a:b]", "new_recs[rec_i][\"data\"][a:b] = records[rec_i][\"data\"][a:b]\n        new_recs[rec_i][\"baseline\"] = 0"),
     W("reduction writes into its input", "C18.R1", RED,
